@@ -3895,6 +3895,13 @@ func (a *Association) popPendingDataChunksToSend( //nolint:cyclop,gocognit
 				addBytes := int(commonHeaderSize) + chunkBytes
 
 				if addBytes <= int(a.MTU()) && a.tlrAllowSendLocked(budgetScaled, consumed, addBytes) {
+					// The probe occupies peer window like any other new chunk: without
+					// this a second chunk that fits the stale rwnd follows the probe.
+					if probeLen := uint32(len(c.userData)); probeLen >= a.RWND() { //nolint:gosec // G115
+						a.setRWND(0)
+					} else {
+						a.setRWND(a.RWND() - probeLen)
+					}
 					a.movePendingDataChunkToInflightQueue(c)
 					chunks = append(chunks, c)
 				}
